@@ -376,27 +376,65 @@ def load_known():
         return []
 
 
-class time_limit:
-    """context manager: raise TimeoutError in the main thread of this process after `seconds` (a hang of the implementation
-    becomes a reported finding instead of a check that never ends)"""
+class InfraTimeout(BaseException):
+    """the wall-clock backstop of a time limit expired although the process had not used its CPU budget: the machine is
+    overloaded or the process is blocked — an infrastructure problem (exit 2), never a finding"""
 
-    def __init__(self, seconds):
+
+class time_limit:
+    """context manager: raise TimeoutError in the main thread of this process once it has consumed `seconds` of *CPU time*
+    (user + system, ITIMER_PROF) — a computation of the implementation that does not end becomes a reported finding instead of
+    a check that never ends, and a loaded machine does not turn a slow run into a finding.  A process that blocks without
+    using CPU is stopped by a wall-clock backstop after `wall_factor * seconds` with InfraTimeout (not a finding)."""
+
+    def __init__(self, seconds, wall_factor=8):
         self.seconds = int(seconds)
+        self.wall = int(seconds * wall_factor)
 
     def _fire(self, signum, frame):
-        raise TimeoutError('no result after %d s' % self.seconds)
+        raise TimeoutError('no result after %d s of CPU time' % self.seconds)
+
+    def _fire_wall(self, signum, frame):
+        raise InfraTimeout('no result after %d s of wall-clock time (CPU budget of %d s not used up)' % (self.wall, self.seconds))
 
     def __enter__(self):
         import signal
-        self.old = signal.signal(signal.SIGALRM, self._fire)
-        signal.alarm(self.seconds)
+        self.old = signal.signal(signal.SIGPROF, self._fire)
+        self.old_alrm = signal.signal(signal.SIGALRM, self._fire_wall)
+        signal.setitimer(signal.ITIMER_PROF, self.seconds, 5)      # fires again if the exception was swallowed
+        signal.setitimer(signal.ITIMER_REAL, self.wall, 30)
         return self
 
     def __exit__(self, *exc):
         import signal
-        signal.alarm(0)
-        signal.signal(signal.SIGALRM, self.old)
+        signal.setitimer(signal.ITIMER_PROF, 0)
+        signal.setitimer(signal.ITIMER_REAL, 0)
+        signal.signal(signal.SIGPROF, self.old)
+        signal.signal(signal.SIGALRM, self.old_alrm)
         return False
+
+
+def pool_map(fn, jobs, nproc=None):
+    """multiprocessing map (fork) whose workers turn an InfraTimeout into a value — a BaseException would kill the pool
+    worker and leave `map` waiting for ever; the parent raises it as an infrastructure error (exit 2)"""
+    import multiprocessing as mp
+    with mp.get_context('fork').Pool(nproc or min(16, os.cpu_count() or 4)) as pool:
+        res = pool.map(_Guarded(fn), jobs, chunksize=1)
+    bad = [r for r in res if isinstance(r, dict) and '__infra__' in r]
+    if bad:
+        raise RuntimeError('infrastructure: %d of %d jobs ran out of wall-clock time: %s' % (len(bad), len(res), bad[0]['__infra__']))
+    return res
+
+
+class _Guarded:
+    def __init__(self, fn):
+        self.fn = fn
+
+    def __call__(self, job):
+        try:
+            return self.fn(job)
+        except InfraTimeout as e:
+            return {'__infra__': str(e)}
 
 
 def scratch_dir(prefix='nv'):
